@@ -14,4 +14,5 @@ NV_PlanNames       == Ph1 => Len(PlanMsg(m)) < 4
 NV_TwoRecords      == Ph1 => Len(AllRRs) < 2
 NV_BitmapWindows   == Ph1 => \A i \in 1..Len(AllRRs) : AllRRs[i].nodata \/ AllRRs[i].type # 47 \/ Len(AllRRs[i].f.TypeBitMap) < 3
 NV_OptNotLast      == Ph1 => ~(Len(m.ar) = 2 /\ IsOpt(m.ar[1]))
+NV_Unordered       == Ph1 => ~MayRefuse(m)
 =============================================================================
